@@ -2,6 +2,8 @@
 
 import copy
 import math
+import os
+import pickle
 
 from .. import core, curves_corpus, gen_planted, oracle_curves
 
@@ -13,11 +15,11 @@ RULE = (
     'non-monotone, time origins 0 / 1e6 / 1.6e9; chains in which one interval creeps up before receding so that a single level -- '
     'half of the time level 0 -- bridges two groups built separately; groups joined only at level 0 by the interval with the lowest initial level) handed to the real get_series_time_offsets, which is then re-invoked on '
     '3 permutations of the list and on copies whose series are each shifted along their own axis (integers and '
-    'non-dyadic reals); raw head mappings handed to the real find_offsets and re-invoked with relabelled series ids '
+    'non-dyadic reals); 30% of the collections contain two intervals with bit-identical levels on different clocks, and for those (and 5% of the rest) two orders are each evaluated in a forked child before this process has seen the collection; raw head mappings handed to the real find_offsets and re-invoked with relabelled series ids '
     '(another series becomes the internal zero).  Oracle: own union-find over "share a grid level" names the main '
     'body (most distinct levels; ties in size accept either); the returned set must equal it and relative offsets and '
     'the master curve must agree within 1e-8 relative.  Dataset level: planted two-band records and noisy records '
-    'through the CLI workflow, walker compares the intervals stored by rise / recession with the main body.  '
+    'through the CLI workflow (one in six with a grid step the size of a typical rise, so that some matched rises cross no level), walker compares the intervals stored by rise / recession with the main body.  '
     'Non-trivial: >= 4 intervals, permutation != identity, and for the component clause >= 2 components with >= 2 '
     'intervals in the largest; distinct by collection digest.'
 )
@@ -33,6 +35,9 @@ REQUIRED = {
         'collections-with-a-bridging-level': 20,
         'collections-joined-only-at-level-zero': 20,
         'collections-with-adjacent-components (levels form one gap-free run)': 10,
+        'collections-with-identical-levels-on-different-clocks': 20,
+        'collections-compared-across-orders-each-in-its-own-process': 20,
+        'datasets-with-a-grid-coarser-than-some-rises': 2,
         'main-body-identified': 100,
         'head-mappings-compared-under-relabelling': 100,
         'recession:main-body-checked': 10,
@@ -84,8 +89,39 @@ def gen_collection(rng):
             k = (min(lv_placed) - 1) - max(lv_new)
             placed.extend((t, H + k * step) for t, H in groups[c])
         series = placed
+    if rng.random() < 0.3:
+        # two intervals with bit-identical levels on different clocks (two storms lifting the
+        # water table between the same levels with other rain depths; a logger read twice)
+        t, H = series[rng.randrange(len(series))]
+        series.append((rng.choice([0.0, 1.6e9]) + (t - t[0]) * rng.choice([0.5, 2.0, 3.0]), H.copy()))
     rng.shuffle(series)
     return step, series
+
+
+def in_fresh_process(function, argument):
+    """function(argument) evaluated in a forked child (module-level state of spowtd as it is
+    now, nothing of this evaluation is carried over to the next one).  Returns ('ok', value)
+    or ('raised', description)"""
+    r, w = os.pipe()
+    pid = os.fork()
+    if pid == 0:
+        status = 1
+        try:
+            os.close(r)
+            try:
+                out = ('ok', function(argument))
+            except Exception as exc:  # pylint: disable=broad-except
+                out = ('raised', core.describe_exception(exc))
+            with os.fdopen(w, 'wb') as f:
+                pickle.dump(out, f)
+            status = 0
+        finally:
+            os._exit(status)
+    os.close(w)
+    with os.fdopen(r, 'rb') as f:
+        blob = f.read()
+    os.waitpid(pid, 0)
+    return pickle.loads(blob) if blob else ('raised', {'type': 'ChildDied', 'message': 'no result from the child', 'origin': 'harness', 'site': None})
 
 
 def gen_bridge(rng):
@@ -204,6 +240,23 @@ def check_collection(ctx, rng, step, series, case=None):
             rec.hit('collections-with-adjacent-components (levels form one gap-free run)')
     candidates = [set(m) for nl, m in comps if nl == comps[0][0]]
     call = lambda ss: fo.get_series_time_offsets([(t.copy(), H.copy()) for t, H in ss], step)
+    twins = any(np.array_equal(series[i][1], series[j][1]) and not np.array_equal(series[i][0] - series[i][0][0], series[j][0] - series[j][0][0])
+                for i in range(len(series)) for j in range(i))
+    if twins:
+        rec.hit('collections-with-identical-levels-on-different-clocks')
+    fresh = None
+    if not tie and (twins or rng.random() < 0.05):
+        # each order handled by its own process, as separate command-line runs would be (before this
+        # process has seen the collection)
+        fresh = []
+        for order in (list(range(len(series))), list(reversed(range(len(series))))):
+            kind, value = in_fresh_process(call, [series[p] for p in order])
+            if kind != 'ok':
+                fresh = None
+                break
+            ind_f, off_f, mp_f = value
+            back = [order[i] for i in ind_f]
+            fresh.append((rel(back, off_f), master(back, off_f, {k: [(order[s_], t_) for s_, t_ in seq] for k, seq in mp_f.items()})))
     try:
         ind, off, mp = call(series)
     except Exception as exc:  # pylint: disable=broad-except
@@ -245,6 +298,15 @@ def check_collection(ctx, rng, step, series, case=None):
             rec.violation('result-depends-on-the-order-of-intervals', {'permutation': perm, 'offset_difference': d, 'curve_difference': d2, 'scale': scale}, case, 'collection')
             return
     rec.hit('collections-compared-under-permutation')
+    if fresh:
+        rec.hit('collections-compared-across-orders-each-in-its-own-process')
+        for which, (rel_f, master_f) in zip(('as given', 'reversed'), fresh):
+            ok, d = close(rel_f, base, scale)
+            ok2, d2 = close(master_f, mbase, scale)
+            if not (ok and ok2):
+                rec.violation('result-depends-on-the-order-of-intervals-when-each-order-has-its-own-process',
+                              {'order': which, 'offset_difference': d, 'curve_difference': d2, 'scale': scale, 'identical_levels_on_different_clocks': twins}, case, 'collection')
+                return
     # shifts of each interval's own axis
     for mode in ('integers', 'reals'):
         sh = []
@@ -343,6 +405,14 @@ def run(ctx):
     for i in range(n):
         if i % 6 == 5:
             case = gen_planted.gen_slow(rng)
+        elif i % 6 == 1:
+            # grid step about the size of a typical rise: some matched rises cross no level and
+            # must be left out without disturbing the others
+            case = gen_planted.gen(rng, n_events=rng.randint(12, 25))
+            zs = [v for _, v in case['z']]
+            ups = sorted(b - a for a, b in zip(zs, zs[1:]) if b - a > 0.5)
+            case['grid_step'] = float(max(2, round(1.5 * ups[len(ups) // 2]))) if ups else 8.0
+            ctx.rec.hit('datasets-with-a-grid-coarser-than-some-rises')
         elif i % 3 == 2:
             case = gen_planted.gen_noisy(rng)
         else:
